@@ -34,7 +34,7 @@ Proof. decide equality; apply lpay_eq_dec. Defined.
 Definition fty_eq_dec : forall a b : fty, {a = b} + {a <> b}.
 Proof.
   decide equality; try apply olpay_eq_dec; try apply bool_dec; try apply ikind_eq_dec;
-    try apply ostr_eq_dec; try (apply list_eq_dec; apply str_eq_dec);
+    try apply ostr_eq_dec; try apply str_eq_dec; try (apply list_eq_dec; apply str_eq_dec);
     try (decide equality; first [apply int_rules_eq_dec | apply str_rules_eq_dec | apply len_rules_eq_dec
                                 | apply enum_rules_eq_dec | apply kfmt_eq_dec | apply entity_key_eq_dec
                                 | apply txt_rules_eq_dec | apply obool_eq_dec
